@@ -53,6 +53,8 @@ def run(tier):
     import random
     from vf.common import SEED
     kauri.run_traces(rep, "C08", tier, random.Random(SEED + 8), budget=14 if tier == "quick" else 40)
+    # spec -> code: the bookkeeping of the fit loop under an arbitrary (scripted) search: every kind of step, not only the best ones
+    kauri.run_glue(rep, "C08", tier, random.Random(SEED + 18))
     rep.extra["candidate_kinds"] = dict(kinds)
     rep.extra["STALE-BUILD_disagreements_compiled_vs_pyx"] = stale
     for kind in ("star", "dstar", "switch", "realloc"):
